@@ -283,4 +283,124 @@ theorem full_run_spec (e : Env) (hb : boxOK e.pipe.lb e.pipe.ub = true) (hn : 1 
   obtain ⟨⟨_, hinc, hrows⟩, hbox, hcons, _, hbud, _⟩ := run_inv e hb hn qs s0 hq h0
   exact ⟨hinc, fun row hr => by simpa [Noisy.pairOf] using hrows row hr, hbox, hcons, hbud.1⟩
 
+/-! ### call count and termination of the composed model -/
+
+theorem cReset_fc (o : Ctl.Opts) (c : Ctl.CSt) : (Ctl.cReset o c).fc = c.fc := by
+  unfold Ctl.cReset; split <;> rfl
+
+theorem cstep_fc (o : Ctl.Opts) (c : Ctl.CSt) (co : Ctl.COut) :
+    (Ctl.cstep o c co).fc = (Ctl.cAfterSearch o c co.search).fc +
+      (if Ctl.doPoll o (Ctl.cAfterSearch o c co.search) = true
+       then Ctl.nEvals o (Ctl.cAfterSearch o c co.search).fc co.nz else 0) := by
+  simp only [Ctl.cstep]
+  split <;> simp [cReset_fc]
+
+theorem afterSearch_fc (e : Env) (s : St) (q : Orc) :
+    (Ctl.cAfterSearch e.o s.ctl.c (searchOut e s q)).fc = s.ctl.c.fc + ((searchCand e s q).map (fun c => (c.1.u, c.1.y))).toList.length := by
+  cases hs : searchCand e s q with
+  | none =>
+    have hso : searchOut e s q = .empty := by unfold searchOut; rw [hs]
+    rw [hso]
+    simp only [Ctl.cAfterSearch, Option.map_none, Option.toList, List.length_nil, Nat.add_zero]
+    split <;> rfl
+  | some cn =>
+    obtain ⟨c, nr⟩ := cn
+    obtain ⟨hd, _⟩ := searchCand_spec e s q c nr hs
+    have hso : searchOut e s q = .eval nr (status (impr s.ns.fval c.f) q.thr) := by unfold searchOut; rw [hs]
+    rw [hso]
+    simp [Ctl.cAfterSearch, hd]
+
+/-- the target is called once per evaluated pair -/
+theorem step_fc (e : Env) (s : St) (q : Orc) :
+    (step e s q).ctl.c.fc + s.pairs.length = s.ctl.c.fc + (step e s q).pairs.length := by
+  have hlen := pollCands_length e s q
+  have hnr : pollRuns e s q = false → pollCands e s q = [] := by
+    intro h; unfold pollCands; rw [h]; simp
+  have hc : (step e s q).ctl.c = Ctl.cstep e.o s.ctl.c (Ctl.coutOf e.o s.ctl (outOf e s q)) := rfl
+  have hsearch : (Ctl.coutOf e.o s.ctl (outOf e s q)).search = searchOut e s q := rfl
+  have hnz : (Ctl.coutOf e.o s.ctl (outOf e s q)).nz = (pollCands e s q).length := by
+    simp [Ctl.coutOf, outOf]
+  rw [hc, cstep_fc, hsearch, hnz, afterSearch_fc, step_pairs]
+  simp only [newPairs, List.length_append, List.length_map]
+  have hcb : (cBeforePoll e s q).fc = s.ctl.c.fc + ((searchCand e s q).map (fun c => (c.1.u, c.1.y))).toList.length := by
+    unfold cBeforePoll; rw [cReset_fc, afterSearch_fc]
+  rw [hcb] at hlen
+  by_cases hp : pollRuns e s q = true
+  · have hp' : Ctl.doPoll e.o (Ctl.cAfterSearch e.o s.ctl.c (searchOut e s q)) = true := hp
+    rw [if_pos hp']
+    simp only [Ctl.nEvals] at hlen ⊢
+    omega
+  · have hp0 : pollRuns e s q = false := by simpa using hp
+    have hp' : ¬ Ctl.doPoll e.o (Ctl.cAfterSearch e.o s.ctl.c (searchOut e s q)) = true := hp
+    rw [if_neg hp', hnr hp0]
+    simp only [List.length_nil]
+    omega
+
+theorem run_fc (e : Env) : ∀ (qs : List Orc) (s : St),
+    (run e qs s).ctl.c.fc + s.pairs.length = s.ctl.c.fc + (run e qs s).pairs.length
+  | [], _ => by simp [run]
+  | q :: qs, s => by
+    unfold run
+    by_cases hf : s.ctl.c.finished = true
+    · rw [if_pos hf]
+    · rw [if_neg hf]
+      have h1 := run_fc e qs (step e s q)
+      have h2 := step_fc e s q
+      omega
+
+/-- TERMINATION of the composed model (any noise mode): whatever the oracle answers, after more than `rank`
+    iterations the controller has finished. -/
+theorem full_terminates (e : Env) (hn : 1 ≤ e.o.nTry) :
+    ∀ (qs : List Orc) (s : St), Ctl.CInv e.o s.ctl.c → Ctl.rank e.o s.ctl.c < qs.length →
+      (run e qs s).ctl.c.finished = true
+  | [], _, _, h => by simp at h
+  | q :: qs, s, hinv, hr => by
+    unfold run
+    by_cases hf : s.ctl.c.finished = true
+    · rw [if_pos hf]; exact hf
+    · rw [if_neg hf]
+      by_cases hf' : (step e s q).ctl.c.finished = true
+      · cases qs with
+        | nil => simpa [run] using hf'
+        | cons q' qs' => unfold run; rw [if_pos hf']; exact hf'
+      · have hdec := Ctl.cstep_rank e.o s.ctl.c (Ctl.coutOf e.o s.ctl (outOf e s q)) hn hinv
+          (by simpa [step_ctl, Ctl.step] using hf')
+        refine full_terminates e hn qs _ (by rw [step_ctl]; exact Ctl.cstep_inv e.o s.ctl.c _ hn hinv) ?_
+        rw [step_ctl]
+        simp only [Ctl.step, List.length_cons] at hr ⊢
+        omega
+
+
+/-! ### non-vacuity: a concrete noisy run meets the hypotheses, and the composed model computes it -/
+namespace Example
+def o1 : Ctl.Opts := { D := 1, nTry := 2, budget := 12, maxIter := 5, skip := true, cap := 0, sgm := 2, sgn := 10, locked := true,
+                       accel := true, accelSteps := 3, stallIters := 4, tolExp := -20, expand := 0, incr := 1 }
+def e1 : Env := { pipe := { lb := [.fin (-4)], ub := [.fin 4], origLo := [.fin (-4)], origHi := [.fin 4], tolMesh := 1/1024, cons := none, ginv := id },
+                  o := o1, tolFun := 1/1000 }
+def s0 : St := { pairs := [([0], 1), ([2], 3/2), ([-2], 9)], ns := { u := [0], uBest := [0], yval := 1, fval := 1, fsd := 1/8, hist := [] },
+                 ctl := Ctl.init o1 4 3 0 }
+def v1 : Val := { y := 1/4, f := 1/2, sd := 1/8, newRow := true }
+def v2 : Val := { y := 4, f := 7/2, sd := 1/4, newRow := true }
+def v3 : Val := { y := 1/8, f := 1/4, sd := 1/8, newRow := true }
+def v4 : Val := { y := 0, f := 1/8, sd := 1/8, newRow := true }
+def q1 : Orc := { h := 1/4, searchU := [[1/2], [3]], searchPick := 0, searchVal := some v1,
+                  pollU := [[1], [-1]], pollOrder := [0, 1], pollVals := [v2, v3],
+                  thr := 1/2, stallMesh := false, stallStop := false, reVals := none }
+def q2 : Orc := { h := 1/4, searchU := [[1], [3/4]], searchPick := 1, searchVal := some v4,
+                  pollU := [[3/2], [1/2]], pollOrder := [1, 0], pollVals := [v2, v3],
+                  thr := 1/8, stallMesh := false, stallStop := false, reVals := some [(1/4, 1/16)] }
+
+example : Inv e1 s0 ∧ OrcOK e1 q1 ∧ OrcOK e1 q2 ∧ boxOK e1.pipe.lb e1.pipe.ub = true ∧ 1 ≤ e1.o.nTry := by
+  refine ⟨⟨⟨rfl, by decide +kernel, by intro r hr; cases hr⟩, by decide +kernel, ?_, ?_, ?_, ?_⟩, ?_, ?_, by decide +kernel, by decide⟩
+  · intro c hc; simp [e1] at hc
+  · unfold Ctl.CInv; decide +kernel
+  · unfold Ctl.BInv; decide +kernel
+  · intro _; rfl
+  · unfold OrcOK; decide +kernel
+  · unfold OrcOK; decide +kernel
+
+example : (run e1 [q1, q2] s0).ns.hist.length = (run e1 [q1, q2] s0).ctl.c.pollIter ∧
+    (run e1 [q1, q2] s0).pairs.length = 6 ∧ (run e1 [q1, q2] s0).ctl.c.fc = 7 := by decide +kernel
+end Example
+
 end Bads.Full
